@@ -286,7 +286,7 @@ class Distribution(Generic[R], GenerativeFunction[R]):
             else:
                 chm = trace.get_choices()
                 primals = Diff.tree_primal(argdiffs)
-                new_score, _ = self.assess(chm, primals)
+                new_score = self.estimate_logpdf(key, chm.get_value(), *primals)
                 new_trace = DistributionTrace(self, primals, chm.get_value(), new_score)
                 return (
                     new_trace,
